@@ -102,6 +102,25 @@ def gen_solve_case(rng):
     return jsonq(case)
 
 
+def gen_rhs_case(rng):
+    """reverse-mode totals with the linear-solution cache (rhs_checking) enabled on the group's solver: a chain of
+    responses  yA = A g_out,  yB = k yA,  yC = k2 yB  outside the group makes the adjoint right-hand sides that
+    reach the group (anti-)parallel multiples of each other (k negative and non-unit, -1, 1, 2, ...)"""
+    case = gen_ff_case(rng)
+    case['kind'] = 'rhs'
+    case['solver'] = rng.choice(['direct', 'direct', 'krylov', 'direct_asm'])
+    case['rhs_checking'] = rng.choice([True, True, {'check_zero': True}, {'max_cache_entries': 5}])
+    outs = [(c['name'] + '.' + o['name'], o['size']) for c in case['comps'] for o in c['outputs']]
+    src, n = rng.choice(outs)
+    m = rng.randrange(1, 4)
+    ks = [Fraction(-6, 5), Fraction(-1, 2), -3, -2, -1, 1, 2, Fraction(3, 2), Fraction(-7, 4)]
+    case['resp'] = {'src': src, 'A': [[rng.randrange(-3, 4) for _ in range(n)] for _ in range(m)],
+                    'k': rng.choice(ks[:5] + ks), 'k2': rng.choice(ks) if rng.random() < 0.6 else None}
+    if all(v == 0 for row in case['resp']['A'] for v in row):
+        case['resp']['A'][0][0] = 1
+    return jsonq(case)
+
+
 def jsonq(x):
     if isinstance(x, Fraction):
         return {'q': [x.numerator, x.denominator]} if x.denominator != 1 else int(x)
@@ -176,7 +195,9 @@ class C02(Spec):
             'plus explicit feed-forward models: run_solve_linear fwd/rev and compute_jacvec_product fwd/rev against '
             'compute_totals; plus block-triangular groups with random output scaling (ref/ref0/res_ref scalars and '
             'arrays, negative, ref != res_ref) solved fwd and rev under DirectSolver (assembled or not), LinearBlockGS, '
-            'ScipyKrylov (assembled or not) and LinearRunOnce; a case is non-trivial when distinct')
+            'ScipyKrylov (assembled or not) and LinearRunOnce; plus reverse-mode totals with rhs_checking (linear-solution '
+            'cache) enabled and response chains yB = k yA (k negative non-unit, -1, 1, ...) compared with forward-mode '
+            'totals; a case is non-trivial when distinct')
     assumptions = ['index arrays of the transfers and the order of sub-jacobians are read from the real objects '
                    '(their agreement with the generated connections is checked)',
                    'totals / solves / whole-model apply are checked by the adjoint identity and against compute_totals '
@@ -188,11 +209,11 @@ class C02(Spec):
     def gen(self, tier, rng):
         n = 100 if tier == 'quick' else 1500
         return ([gen_group_case(rng) for _ in range(n)] + [gen_ff_case(rng) for _ in range(n // 2)] +
-                [gen_solve_case(rng) for _ in range(n)])
+                [gen_solve_case(rng) for _ in range(n)] + [gen_rhs_case(rng) for _ in range((n * 2) // 5)])
 
     def search_gen(self, tier, rng):
         return ([gen_group_case(rng) for _ in range(300)] + [gen_ff_case(rng) for _ in range(150)] +
-                [gen_solve_case(rng) for _ in range(300)])
+                [gen_solve_case(rng) for _ in range(300)] + [gen_rhs_case(rng) for _ in range(150)])
 
     def compare_case(self, case, res):
         if res.get('res', '__none__') == '__none__':
